@@ -72,6 +72,8 @@ def outcome(thunk, **kw):
         return {'ok': O.dump_db(db)}, db
     except O.OutOfModel as e:
         return {'err': 'outOfModel:' + str(e)}, db
+    except O.NotADatabase as e:
+        return {'err': 'internal:NotADatabase(' + str(e) + ')'}, None
 
 
 def main(tier, seed):
